@@ -56,6 +56,10 @@ func stepStacks(cs string, depth int) []string {
 }
 
 func stepJobs(c *Check) {
+	if reducedRun {
+		c.Bounds = append(c.Bounds, "REDUCED: the lexer's unexported fields are not the ones the accessors expect; the S7 lexer-step shapes could not be set up on this tree")
+		return
+	}
 	kPhp, kOther, depth, calls := 2, 3, 1, 2
 	labels := []string{"A"}
 	vers := "7.4,5.6"
